@@ -113,7 +113,7 @@ def generate(seed, tier):
     sc = {
         "mode": mode, "order": order, "L": L, "N": N, "starts": starts, "win": win, "psll": rw.choice([60, 120, 200]),
         "omega": _gen_omega(rw, L), "data": data, "via": via, "fs": rw.choice([1.0, 2.0, 100.0]),
-        "worlds": [W.gen_world(rf, k, K) for k in kinds],
+        "worlds": [W.gen_world(rf, k, K, heavy=True) for k in kinds],
     }
     if huge_k:
         for ws in sc["worlds"]:
